@@ -166,6 +166,10 @@ func checkSend(x *model.Exec, s *bgen.SendStep) (string, bool, []string) {
 			if c.InType == eventlogger.EventType(s.ET) && c.InPayload == interface{}(lin) && c.InCreated && c.InFmtLen == 0 {
 				okRoot = true
 			}
+			if okRoot && x.Stopped != nil && !c.InCreatedAt.Equal(*x.Stopped) && len(pred[k]) == 0 {
+				// StopTimeAt is documented to make the timestamps predictable: the creation time is the stopped instant
+				return fmt.Sprintf("the Broker's clock was stopped at %s (StopTimeAt) but the first node %s received an event created at %s", x.Stopped.Format(time.RFC3339Nano), c.Node.Name, c.InCreatedAt.Format(time.RFC3339Nano)), false, nil
+			}
 		}
 		okPred := false
 		for pk := range pred[k] {
